@@ -687,6 +687,10 @@ func runC10(p *core.Program, r *core.Report) {
 		// arguments of the insert
 		for _, call := range ins {
 			a := call.Common().Args
+			if len(a) != 6 {
+				c.und("AG2", fname, "insert from the root with the right tombstone flag", p.InstrPos(call), "insert no longer takes (t, key, val, height, isRemoved): the tombstone protocol the rules are phrased over changed")
+				continue
+			}
 			bc, isC := path.BoolConst(a[5])
 			okA := isLoadOfField(a[0], "BTree", "root") && a[2] == ssa.Value(keyP) && isLoadOfField(a[4], "BTree", "height") && isC && bc == (fn == fRemove)
 			c.ob("AG2", fname, "insert from the root with the right tombstone flag", p.InstrPos(call), okA, "Put must call root.insert(t, key, val, t.height, false) and Remove root.insert(t, key, _, t.height, true)")
